@@ -323,12 +323,12 @@ def g_hstack(rng):
 
 
 def g_vstack(rng):
-    # dim >= 2: for 1-d operands vstack = concatenate(atleast_2d(a), atleast_2d(b)) has a non-trivial view as second operand
-    # (same finding as above; the mis-composed view asserts/overflows while it is read)
-    s = rshape(rng, 2, 3, 48)
-    t = list(s)
-    t[0] = rng.randint(1, 4)
-    return [lab(s), lab(t, 1000), NONE], []
+    # a and b of the same shape: vstack = concatenate(reshape(a,..), reshape(b,..), 0) has a view as second operand, which the
+    # linearised composition applies to the first operand (findings/c13_tree_composition_right_view_operand.md); with equal
+    # shapes of dim >= 2 that is harmless; with different shapes or 1-d operands the mis-composed view is Nothing / garbage /
+    # asserts (concatenate of a 2-d and a 1-d array) while it is read
+    s = rshape(rng, 2, 4, 48)
+    return [lab(s), lab(s, 1000), NONE], []
 
 
 def g_flat2(rng):
